@@ -60,8 +60,12 @@ def gen_ring(rng, n):
     return [f"ring {rng.below(1 << 30)} 400" for _ in range(n)]
 
 
-def common_params(rng, strat, ind):
+def common_params(rng, strat, ind, light=False):
     individuals = rng.choice([4, 4, 5, 6, 8, 12, 20, 33, 60])
+    if light and individuals == 60 and not rng.chance(0.34):
+        # quick tier, whole runs: the monitor re-observes the whole population after every replacement, a run
+        # costs ~ population^2 per generation; the largest population is kept but made rarer (thorough: full share)
+        individuals = 16
     # tournament_size = 1 ("selecting individuals at random"): recombination picks the mate itself
     # (fix 3f50779; before, recombination::base / de read parent[1] of a one-element vector)
     tour = rng.choice([1, 2, 2, 3, 4, individuals, min(individuals, 7)])
@@ -127,7 +131,7 @@ def gen_runs(rng, n, big):
     out = []
     for i in range(n):
         strat, ind = COMBOS[i % len(COMBOS)]
-        p = common_params(rng, strat, ind)
+        p = common_params(rng, strat, ind, light=not big)
         shake_params(rng, p)
         p["generations"] = rng.choice([1, 2, 3, 5]) if not big else rng.choice([3, 6, 10])
         if strat == "alps":
@@ -341,21 +345,33 @@ def run(chk, replay=None):
         phases[name] = round(time.time() - t0, 1)
         t0 = time.time()
 
+    # the C++ side (library of the working tree + the two harness translation units) does not depend on the
+    # translators or on Lean: it is built in the background while they run (all three are cached by content hash;
+    # after an edit of vita this overlaps ~1 min of clang / Lean with the g++ build)
+    bg = cf.ThreadPoolExecutor(3)
+
+    def build_cxx():
+        C.build_vita("asan")
+        return list(bg.map(lambda n: C.build_harness(n, "asan"), [HARNESS_RUN, HARNESS_TUNE]))
+    cxx = bg.submit(build_cxx)
     # which parameters do is_valid / tune_parameters touch in the current sources? (clang AST)
-    try:
-        stats, changed = translated(translate_tune, os.path.join(C.LEAN, "Vita", "C06", "Gen.lean"), "gen")
-        chk.cov["translated"] = stats
-        chk.cov["gen_changed_vs_committed"] = bool(changed)
-    except Refuse as e:
-        broken.append("tools/translate_tune.py refuses the current sources: %s" % e)
     # what do evolution::run, summary::clear, the strategy classes and the tune_parameters say in the
-    # current sources?
-    try:
-        stats, changed = translated(translate_evolution, os.path.join(C.LEAN, "Vita", "C06", "GenEvo.lean"), "genevo")
-        chk.cov["translated_evolution"] = stats
-        chk.cov["genevo_changed_vs_committed"] = bool(changed)
-    except Refuse as e:
-        broken.append("tools/translate_evolution.py refuses the current sources: %s" % e)
+    # current sources?   (the two translators run side by side)
+    with cf.ThreadPoolExecutor(2) as ex:
+        ft = ex.submit(translated, translate_tune, os.path.join(C.LEAN, "Vita", "C06", "Gen.lean"), "gen")
+        fe = ex.submit(translated, translate_evolution, os.path.join(C.LEAN, "Vita", "C06", "GenEvo.lean"), "genevo")
+        try:
+            stats, changed = ft.result()
+            chk.cov["translated"] = stats
+            chk.cov["gen_changed_vs_committed"] = bool(changed)
+        except Refuse as e:
+            broken.append("tools/translate_tune.py refuses the current sources: %s" % e)
+        try:
+            stats, changed = fe.result()
+            chk.cov["translated_evolution"] = stats
+            chk.cov["genevo_changed_vs_committed"] = bool(changed)
+        except Refuse as e:
+            broken.append("tools/translate_evolution.py refuses the current sources: %s" % e)
     lap("translate")
     ok, msg = chk.prove(PROP, [PROP, DRIVER])
     drv_ok = os.path.exists(C.driver_path(DRIVER)) and ok
@@ -365,9 +381,10 @@ def run(chk, replay=None):
         drv_ok = ok2
 
     lap("prove")
-    C.build_vita("asan")
-    with cf.ThreadPoolExecutor(2) as ex:          # the two translation units compile in parallel
-        exes = list(ex.map(lambda n: C.build_harness(n, "asan"), [HARNESS_RUN, HARNESS_TUNE]))
+    try:
+        exes = cxx.result()          # (raises what build_vita / build_harness raised)
+    finally:
+        bg.shutdown(wait=False)
     exe_for = lambda case: exes[0] if case.split()[0] in ("comp", "run", "search") else exes[1]
 
     lap("build")
@@ -389,7 +406,7 @@ def run(chk, replay=None):
         cases += gen_ring(rng, 20 if not thorough else 200)
         cases += gen_tune(rng, 1500 if not thorough else 20000)
         cases += gen_comp(rng, 300 if not thorough else 3000, 100 if not thorough else 200)
-        cases += gen_runs(rng, 420 if not thorough else 3000, thorough)     # each case = 1..3 runs on one object
+        cases += gen_runs(rng, 300 if not thorough else 3000, thorough)     # each case = 1..3 runs on one object
         cases += gen_search(rng, 40 if not thorough else 400)
 
     # ---- harness (sharded) + driver ----------------------------------------
